@@ -15,10 +15,62 @@ import (
 	"encoding/hex"
 	"fmt"
 	"go/ast"
+	"go/importer"
 	"go/types"
+	"io"
+	"os"
+	"os/exec"
 	"sort"
 	"strings"
 )
+
+var g9Exports map[string]string // import path -> export data file (go list -export)
+
+// g9LoadExport parses dir like Env.Load and type-checks it against the compiler's export data
+// of its dependencies (`go list -export -deps`, served from the Go build cache: ~1 s instead of
+// ~40 s for the "source" importer).  A type error in the package itself is an error here.
+func g9LoadExport(e *Env, dir string) (*Pkg, error) {
+	if g9Exports == nil {
+		cmd := exec.Command("go", "list", "-export", "-deps", "-f", "{{.ImportPath}}\t{{.Export}}", "./cl", "./x/build")
+		cmd.Dir = e.Repo
+		cmd.Env = append(os.Environ(), "GOFLAGS=-mod=readonly")
+		cmd.Stderr = os.Stderr
+		out, err := cmd.Output()
+		if err != nil {
+			return nil, fmt.Errorf("go list -export: %v", err)
+		}
+		g9Exports = map[string]string{}
+		for _, l := range strings.Split(string(out), "\n") {
+			if f := strings.Split(l, "\t"); len(f) == 2 && f[1] != "" {
+				g9Exports[f[0]] = f[1]
+			}
+		}
+	}
+	p, err := e.Load(dir, false)
+	if err != nil {
+		return nil, err
+	}
+	lookup := func(path string) (io.ReadCloser, error) {
+		f, ok := g9Exports[path]
+		if !ok {
+			return nil, fmt.Errorf("no export data for %s", path)
+		}
+		return os.Open(f)
+	}
+	var terrs []string
+	conf := types.Config{Importer: importer.ForCompiler(p.Fset, "gc", lookup), Error: func(err error) { terrs = append(terrs, err.Error()) }}
+	p.Info = &types.Info{
+		Types: map[ast.Expr]types.TypeAndValue{},
+		Defs:  map[*ast.Ident]types.Object{},
+		Uses:  map[*ast.Ident]types.Object{},
+	}
+	tp, _ := conf.Check(p.Files[0].Name.Name, p.Fset, p.Files, p.Info)
+	if len(terrs) > 0 {
+		return nil, fmt.Errorf("%s: type errors: %s", dir, strings.Join(terrs[:1], "; "))
+	}
+	p.Types = tp
+	return p, nil
+}
 
 func init() { register("mapranges", genMapRanges) }
 
@@ -59,12 +111,9 @@ func coqAsciiString(s string) (string, error) {
 }
 
 func mapRangesOf(e *Env, dir string) ([]mapRangeSite, int, error) {
-	p, err := e.Load(dir, true)
+	p, err := g9LoadExport(e, dir)
 	if err != nil {
 		return nil, 0, err
-	}
-	if p.Types == nil {
-		return nil, 0, fmt.Errorf("%s: type check failed", dir)
 	}
 	var sites []mapRangeSite
 	nRange := 0
